@@ -450,7 +450,14 @@ class Array(metaclass=MetaArray):
             shape = cls._shape
         if not cls._is_static_type:
             items = np.prod(shape)
-            self._offsets = Int64._array_from_buffer(buffer, coffset, items)
+            offsets = Int64._array_from_buffer(buffer, coffset, items)
+            if len(shape) > 1:  # table in memory order -> logical index space
+                order = mk_order(cls._order, shape)
+                aorder = [order.index(ii) for ii in range(len(order))]
+                offsets = offsets.reshape(
+                    [shape[io] for io in order]
+                ).transpose(aorder)
+            self._offsets = offsets
         return self
 
     @classmethod
